@@ -511,6 +511,8 @@ def worlds(tier, prop):
         ('L3', {'tmo': D / 2}), ('L3', {'tmo': D / 2, 'collect': True}), ('L3', {'tmo': D / 2, 'leave_open': True}),
         ('L4', {'stop_at': D / 2, 'shutdown': True}),
         ('L4', {'stop_at': D / 2, 'shutdown': False}),
+        ('L4', {'stop_at': 0.0, 'shutdown': True}),          # stop request racing the very first steps
+        ('L4', {'stop_at': D, 'shutdown': True}),            # ... and the completion of the computation
     ]
     for la, kw in lifes_a:
         for s0 in ('sleepD', 'yield', 'sleepD_raise') if la != 'L0' else SCRIPTS_1:
@@ -518,6 +520,8 @@ def worlds(tier, prop):
                 ta = dict(life=la, m=1, offset=0.0, **kw)
                 tb = dict(life='L0', m=1, offset=offb)
                 pb = 2 if (s0 == 'sleepD' and offb == 0.0) or not q else 1
+                if la == 'L4' and kw.get('stop_at') != D / 2:
+                    pb = 1
                 add(f'2t/{la}{kw}/{s0}/offb{offb}', [ta, tb], [s0, 'sleepD', 'ret0'], pb=pb)
                 if la in ('L1', 'L4') and s0 == 'sleepD':     # shutdown cancels tasks in the other order
                     add(f'2t/{la}{kw}/{s0}/offb{offb}/cancel-desc', [ta, tb], [s0, 'sleepD', 'ret0'], pb=1,
